@@ -7,6 +7,7 @@ import DryocVerif.Spec.SipHash
 import DryocVerif.Spec.Salsa20
 import DryocVerif.Spec.ChaCha20
 import DryocVerif.Model.Poly1305
+import DryocVerif.Model.OnetimeAuth
 import DryocVerif.Model.Utils
 import DryocVerif.Model.Blake2b
 import DryocVerif.Model.SecretBox
@@ -69,7 +70,10 @@ def handle (op : String) (args : List String) : Option Ans :=
   | "poly1305_obj", some (k :: cs) =>
       some (okHex (Model.Poly1305.macChunks k cs), okHex (Spec.Poly1305.mac k cs.flatten))
   | "poly1305_verify", some [k, m, t] =>
-      some ((if t = Model.Poly1305.mac k m then "ok" else "err"), (if t = Spec.Poly1305.mac k m then "ok" else "err"))
+      -- model column: `crypto_onetimeauth_verify` as modelled (compute, then `subtle`'s `ct_eq`);
+      -- `Proofs.OnetimeAuth.onetimeauthVerify_eq`: = `if t = Model.Poly1305.mac k m then ok else err`
+      some ((match Model.OnetimeAuth.onetimeauthVerify k m t with | .ok () => "ok" | .err => "err" | .panic => "panic"),
+            (if t = Spec.Poly1305.mac k m then "ok" else "err"))
   | "increment", some [b] =>
       some (okHex (Model.Utils.incrementBytes b), okHex (toLE b.length (le b + 1)))
   | "auth", some [k, m] =>
